@@ -419,10 +419,11 @@ class AutoSerialize:
         elif isinstance(value, set):
             # Convert set to list for serialization, store type info
             subgroup = group.require_group(name)
-            subgroup.attrs["_container_type"] = "set"
             # Convert set items to list and serialize
             list_value = list(value)
             self._serialize_container(list_value, subgroup, skip_names, skip_types, compressors)
+            # Tag after the list has been written: _serialize_container tags the group as "list"
+            subgroup.attrs["_container_type"] = "set"
 
         elif hasattr(value, "bit_generator"):
             # NumPy random generator - save state through bit_generator
